@@ -273,7 +273,8 @@ func genReasmCase(rng *rand.Rand, prop string, maxOps int) RCase {
 		case x < 7:
 			c.Ops = append(c.Ops, ROp{K: "maintain"})
 			continue
-		case x < 8 && prop != "C02" && prop != "C03":
+		case x < 8:
+			// Close in the middle: pushes are still accepted afterwards, and ordering and loss accounting carry on
 			c.Ops = append(c.Ops, ROp{K: "close"})
 			continue
 		}
@@ -372,7 +373,16 @@ func genReasmRealCase(rng *rand.Rand) RCase {
 		if rng.Intn(2) == 0 {
 			c.Ops = append(c.Ops, ROp{K: "sleep", Ms: toMs / 2}, ROp{K: "push", ID: 901, Seq: c.Base, Typ: typ[rng.Intn(3)]})
 		}
-		c.Ops = append(c.Ops, ROp{K: "sleep", Ms: toMs * 5}, ROp{K: "push", ID: 902, Seq: c.Base, Typ: typ[rng.Intn(3)]})
+		switch rng.Intn(3) {
+		case 0:
+			// the first call after the timeout is a push that buffers nothing itself: the EOE of a sequence
+			// that is not buffered (never seen, or delivered long ago) — it must flush the stale event all the same
+			c.Ops = append(c.Ops, ROp{K: "sleep", Ms: toMs * 5}, ROp{K: "push", ID: 902, Seq: c.Base + 77 + uint32(rng.Intn(3)), Typ: tEOE})
+		case 1:
+			c.Ops = append(c.Ops, ROp{K: "sleep", Ms: toMs * 5}, ROp{K: "raw", ID: 902, Seq: c.Base + 5, Typ: []uint16{tEOE, tSYSCALL, 1100}[rng.Intn(3)]})
+		default:
+			c.Ops = append(c.Ops, ROp{K: "sleep", Ms: toMs * 5}, ROp{K: "push", ID: 902, Seq: c.Base, Typ: typ[rng.Intn(3)]})
+		}
 		if rng.Intn(2) == 0 {
 			c.Ops = append(c.Ops, ROp{K: "maintain"})
 		}
@@ -638,7 +648,7 @@ func reasmMonitor(c RCase, obs []opObs, prop string) (clause string) {
 			}
 		}
 		// C19 (real time): the oldest buffered event must not be one whose timeout certainly elapsed before this call
-		if c.Real && (op.K == "push" || (op.K == "maintain" && !isErr)) && len(open) > 0 {
+		if c.Real && (op.K == "push" || op.K == "raw" || (op.K == "maintain" && !isErr)) && len(open) > 0 {
 			var head *evTrack
 			for _, e := range open {
 				if head == nil || winPos(c.Base, e.seq) < winPos(c.Base, head.seq) {
